@@ -44,6 +44,10 @@ def benign_corpus():
     out = []
     for d in sorted((VERIF / "benign").glob("*/patch.diff")):
         out.append({"id": f"refactor-{d.parent.name}", "kind": "benign", "patch": str(d.relative_to(VERIF)), "why": f"independent behaviour-preserving refactoring {d.parent.name} (see benign/{d.parent.name}/notes.md)"})
+    # rewrites so deep that some rule no longer recognises the construct it reasons about: the check may answer
+    # "no verdict" (exit 2) but must never print a VIOLATION
+    for d in sorted((VERIF / "benign_deep").glob("*/patch.diff")):
+        out.append({"id": f"deep-refactor-{d.parent.name}", "kind": "benign-or-noverdict", "patch": str(d.relative_to(VERIF)), "why": f"behaviour-preserving deep rewrite {d.parent.name}: exit 0 or 2 accepted, never 1"})
     return out
 
 
@@ -112,6 +116,10 @@ def run_variant(prop, v, root):
             if rule and f"{prop}.{rule} refuted" not in out:
                 return v, "FAIL", f"violation reported but not by rule {rule}", out
             return v, "ok", "detected", out
+        elif v["kind"] == "benign-or-noverdict":
+            if r.returncode == 1 or "VIOLATION" in out:
+                return v, "FAIL", "deep rewrite: a VIOLATION was printed on behaviour-preserving code", out
+            return v, "ok", "silent" if r.returncode == 0 else "no verdict", out
         else:
             if r.returncode != 0:
                 return v, "FAIL", f"benign variant: expected exit 0, got {r.returncode}", out
@@ -148,6 +156,7 @@ def run_for(prop, root="/repo", jobs=16, verbose=True, only=None, want_info=Fals
         "variants": n,
         "breaking_detected": sum(1 for v, s_, m, o in results if v["kind"] == "break" and s_ == "ok"),
         "benign_silent": sum(1 for v, s_, m, o in results if v["kind"] == "benign" and s_ == "ok"),
+        "deep_rewrites_no_false_alarm": sum(1 for v, s_, m, o in results if v["kind"] == "benign-or-noverdict" and s_ == "ok"),
         "skipped": [v["id"] for v, s_, m, o in results if s_ == "skipped"],
         "failed": [v["id"] for v, s_, m, o in results if s_ == "FAIL"],
         "ids": [f"{v['id']}[{v['kind']}{':' + v['rule'] if v.get('rule') else ''}]" for v, s_, m, o in results],
